@@ -134,6 +134,14 @@ def entry_points(g):
     yield "neighbors_unhashable_filter", {}, lambda c: names(helpers.neighbors(v0, oracles.ANY, oracles.NEIGHBOR, unh))
     yield "bft_unhashable_filter", {}, lambda c: names(breadthfirst.bft(uni, v0, ff_via=unh, direction_sensitive=oracles.ANY,
                                                                          unknown_handling=oracles.NEIGHBOR))
+    # many DISTINCT lookups on the same vertices (per-call lambdas as filters, every direction / unknown-handling
+    # setting): however many answers an implementation chooses to remember, the graph stays as it was
+    yield "neighbors:60_distinct_filters", {}, lambda c: [
+        names(helpers.neighbors(v0, d, un, (lambda e, v, k=k: (k + getattr(v, "idx", 0)) % 3 != 0)))
+        for k in range(60) for d in (oracles.ANY, oracles.FORWARD) for un in (oracles.NEIGHBOR,)][-1]
+    yield "bft:40_distinct_filters", {}, lambda c: [
+        names(breadthfirst.bft(uni, v0, ff_via=(lambda e, v, k=k: k % 4 != 1), direction_sensitive=oracles.ANY,
+                               unknown_handling=oracles.NEIGHBOR)) for k in range(40)][-1]
     yield "find_links", {"filterfunc": f_link}, lambda c: sorted(names(helpers.find_links(v0, v1, False, oracles.NEIGHBOR, c["filterfunc"])))
     kw = dict(direction_sensitive=oracles.ANY, unknown_handling=oracles.NEIGHBOR)
     for nm, fn, gen in (("bft", breadthfirst.bft, False), ("ibft", breadthfirst.ibft, True),
